@@ -81,6 +81,80 @@ where
     _v: PhantomData<V>,
 }
 
+/// A task waiting (or about to wait) for the mutex of an entry it holds a [ReplicaArc] for, i.e. the future returned
+/// by [ReplicaArc::lock_owned] together with what is needed to fulfill invariant 2C if that future is dropped before
+/// it got the lock (e.g. because the future of [LockableMapImpl::async_lock] or the stream of
+/// [LockableMapImpl::lock_all_entries] was dropped): giving up the place in the wait queue and dropping the
+/// [ReplicaArc] then happens while `entries` is locked, followed by the cleanup of a `None` entry.
+struct PendingLock<K, V, C, S, F>
+where
+    K: Eq + PartialEq + Hash + Clone,
+    C: LockableMapConfig + Clone,
+    S: Borrow<LockableMapImpl<K, V, C>>,
+    F: Future<Output = ReplicaOwnedMutexGuard<EntryValue<C::WrappedV<V>>>>,
+{
+    this: S,
+    key: K,
+    // Is `Some` until the lock was acquired
+    lock_future: Option<std::pin::Pin<Box<F>>>,
+    _v: PhantomData<V>,
+    _c: PhantomData<C>,
+}
+
+impl<K, V, C, S, F> PendingLock<K, V, C, S, F>
+where
+    K: Eq + PartialEq + Hash + Clone,
+    C: LockableMapConfig + Clone,
+    S: Borrow<LockableMapImpl<K, V, C>>,
+    F: Future<Output = ReplicaOwnedMutexGuard<EntryValue<C::WrappedV<V>>>>,
+{
+    /// `lock_future` must be the (not necessarily polled yet) future returned by [ReplicaArc::lock_owned]
+    /// for the entry with the given `key`.
+    fn new(this: S, key: K, lock_future: F) -> Self {
+        Self {
+            this,
+            key,
+            lock_future: Some(Box::pin(lock_future)),
+            _v: PhantomData,
+            _c: PhantomData,
+        }
+    }
+
+    async fn lock(&mut self) -> ReplicaOwnedMutexGuard<EntryValue<C::WrappedV<V>>> {
+        let guard = self
+            .lock_future
+            .as_mut()
+            .expect("PendingLock::lock must only be called once")
+            .await;
+        self.lock_future = None;
+        guard
+    }
+}
+
+impl<K, V, C, S, F> Drop for PendingLock<K, V, C, S, F>
+where
+    K: Eq + PartialEq + Hash + Clone,
+    C: LockableMapConfig + Clone,
+    S: Borrow<LockableMapImpl<K, V, C>>,
+    F: Future<Output = ReplicaOwnedMutexGuard<EntryValue<C::WrappedV<V>>>>,
+{
+    fn drop(&mut self) {
+        if let Some(lock_future) = self.lock_future.take() {
+            // We were cancelled before we got the lock.
+            #[cfg(feature = "verif_hooks")]
+            crate::verif_hooks::at(crate::verif_hooks::Site::CancelBegin(
+                crate::verif_hooks::key_hash(&self.key),
+            ));
+            // Invariant 2C: We need to get the `entries` lock before we drop the [ReplicaArc] held by the future.
+            let mut entries = self.this.borrow()._entries();
+            // This takes us out of the wait queue of the mutex. If the mutex was already handed over to us,
+            // it gets passed on to the next waiter or is unlocked.
+            std::mem::drop(lock_future);
+            LockableMapImpl::<K, V, C>::_delete_if_none_and_no_replicas(&mut entries, &self.key);
+        }
+    }
+}
+
 enum LoadOrInsertMutexResult<V> {
     Existing {
         mutex: ReplicaArc<tokio::sync::Mutex<EntryValue<V>>>,
@@ -360,7 +434,12 @@ where
         // The following blocks the task until the mutex for this key is acquired.
 
         let guard = match mutex {
-            LoadOrInsertMutexResult::Existing { mutex } => mutex.lock_owned().await,
+            LoadOrInsertMutexResult::Existing { mutex } => {
+                // If we get cancelled while waiting, [PendingLock] makes sure invariant 2C is fulfilled.
+                PendingLock::new(this.clone(), key.clone(), mutex.lock_owned())
+                    .lock()
+                    .await
+            }
             LoadOrInsertMutexResult::Inserted { guard } => guard,
         };
 
@@ -500,11 +579,15 @@ where
                 let key = key.clone();
                 // Concurrency: PrimaryArc::clone must happen before we go async, while we still have the lock on `entries`,
                 //              so that invariant 2A is fulfilled (refcount must only be increased while `entries` is locked).
-                //              The refcount will only be decreased through the Guard, which means it will also only happen
-                //              while `entries` is locked and invariant 2C is fulfilled.
+                //              The refcount will only be decreased through the Guard or the [PendingLock], which means it will
+                //              also only happen while `entries` is locked and invariant 2C is fulfilled.
                 let mutex = PrimaryArc::clone(mutex);
+                // If the stream gets dropped before this entry was locked (no matter whether it was already polled),
+                // [PendingLock] makes sure invariant 2C is fulfilled.
+                let mut pending_lock =
+                    PendingLock::new(this.clone(), key.clone(), mutex.lock_owned());
                 async move {
-                    let guard = mutex.lock_owned().await;
+                    let guard = pending_lock.lock().await;
                     let guard = Self::_make_guard(this, key, guard);
                     if guard.value().is_some() {
                         Some(guard)
@@ -599,6 +682,32 @@ where
             // With invariant 2C, we know that thread or task hasn't cleaned up yet but will wait for us to release the `entries`
             // lock and then eventually call [Self::_delete_if_unlocked_and_nobody_waiting_for_lock] again.
             // We can just exit and let them deal with it.
+        }
+    }
+
+    /// To be called after a [ReplicaArc] for this entry (that wasn't holding the lock) was dropped while `entries` was locked.
+    fn _delete_if_none_and_no_replicas(entries: &mut EntriesGuard<'_, K, V, C>, key: &K) {
+        let mutex: &Entry<C::WrappedV<V>> = entries
+            .peek(key)
+            .expect("This entry must exist, we just had a ReplicaArc for it");
+        // We have a lock on `entries` and invariant 2A ensures that no other threads or tasks can currently
+        // increase num_replicas. This means that if num_replicas == 0, nobody has the entry locked or waits for it.
+        if mutex.num_replicas() == 0 {
+            let is_none = {
+                let Ok(guard) = PrimaryArc::clone(mutex).try_lock_owned() else {
+                    panic!("We're the only one who has access to this mutex. Locking can't fail.");
+                };
+                // Dropping this [ReplicaOwnedMutexGuard] without any `None` checks is fine despite invariant 2C,
+                // because we hold a lock on `entries` and had that lock since the call to [PrimaryArc::clone].
+                guard.value.is_none()
+            };
+            if is_none {
+                let remove_result = entries.remove(key);
+                assert!(
+                    remove_result.is_some(),
+                    "We just got this entry above from the hash map, it cannot have vanished since then"
+                );
+            }
         }
     }
 
